@@ -165,6 +165,29 @@ CHECKS = {
               tech='bounded-exhaustive input enumeration against a before/'
                    'after snapshot oracle + explicit-state BFS over container '
                    'start/finish histories', engine='boundx+statex'),
+    'C17': _s('Exhaustive exploration of the interleavings of the real '
+              'PresenceResourceService of 2 nodes (3 in one configuration), one '
+              'instance with containers g1/g3 on host A, g2 on B, g4 on C '
+              '(running, endpoint and identity node each) on an in-memory '
+              'ZooKeeper, every ZooKeeper call a scheduling point, plus '
+              'environment deviations (session expiry with re-issue of live '
+              'requests in every order, one external deletion, watch '
+              'delivery): stateless DFS with iterative preemption bounding, '
+              'and the same DFS cut at canonical states for unbounded '
+              'preemptions (bounds per configuration in the evidence); '
+              'sequential sweeps of EndpointPresence and _unschedule.',
+              '5/C17',
+              note='fakezk = ZooKeeper (atomic calls, no ACLs, no connection '
+                   'loss without expiry); a node is a single-threaded request '
+                   'loop; retries recorded and re-run FIFO; at most one '
+                   'external deletion per execution, the check-then-act window '
+                   'after it is counted, not reported',
+              tech='stateless interleaving exploration of the implementation '
+                   '(DFS over scheduler choices with replayed prefixes, '
+                   'iterative preemption bounding; visited-state pruning with '
+                   'the soundness argument of DESIGN 2.4); ownership monitor '
+                   'over the write log + reference registration table',
+              engine='ilv'),
     'C18': _s('Bounded-exhaustive sweep of the real trace archiver '
               '(cleanup_trace/cleanup_finished/cleanup_*_history, '
               'cleanup_server_trace, upload_batch/download_batch/cleanup) on '
@@ -251,7 +274,7 @@ def main():
                                    'boundx' in CHECKS[p][0]],
              'kind_free_text': 'bounded-exhaustive sweep of complete finite '
                                'input products over forked workers'},
-            {'name': 'ilv', 'path': 'mc/ilv.py',
+            {'name': 'ilv', 'path': 'mc/ilv.py (C14), mc/c17_ilv.py (C17)',
              'serves_properties': [p for p in props if p in CHECKS and
                                    'ilv' in CHECKS[p][0]],
              'kind_free_text': 'greenlet interleaving explorer: stateless DFS '
